@@ -49,14 +49,14 @@ def strip_comments(text):
 def _sources_digest():
     h = hashlib.sha1()
     for p in lean_sources():
-        if os.path.basename(p) == "Audit.lean":
+        if os.path.basename(p).startswith("Audit"):
             continue
         h.update(p.encode())
         h.update(open(p, "rb").read())
     return h.hexdigest()[:16]
 
 
-def build_and_audit(theorems):
+def build_and_audit(theorems, pid="all"):
     """returns (ok, info). Cached on the hash of the Lean sources + theorem list."""
     t0 = time.time()
     r = sh("lake build Pfl PflDrv drv 2>&1", cwd=LEAN)
@@ -68,7 +68,7 @@ def build_and_audit(theorems):
         h.update(open(p, "rb").read())
     h.update(json.dumps(sorted(theorems)).encode())
     digest = h.hexdigest()
-    cache = os.path.join(LEAN, ".lake", "audit_cache.json")
+    cache = os.path.join(LEAN, ".lake", "audit_cache_%s.json" % pid)
     if os.path.exists(cache):
         try:
             c = json.load(open(cache))
@@ -80,17 +80,17 @@ def build_and_audit(theorems):
             pass
     bad = []
     for p in lean_sources():
-        if not p.endswith(".lean") or os.path.basename(p) == "Audit.lean":
+        if not p.endswith(".lean") or os.path.basename(p).startswith("Audit"):
             continue
         for i, line in enumerate(strip_comments(open(p).read()).splitlines()):
             if FORBIDDEN.search(line):
                 bad.append("%s: %s" % (os.path.relpath(p, LEAN), line.strip()))
-    audit = os.path.join(LEAN, "Audit.lean")
+    audit = os.path.join(LEAN, ".lake", "Audit_%s.lean" % pid)
     with open(audit, "w") as fh:
         fh.write("import Pfl\n")
         for t in theorems:
             fh.write("#print axioms %s\n" % t)
-    r = sh("lake env lean Audit.lean 2>&1", cwd=LEAN)
+    r = sh("lake env lean %s 2>&1" % os.path.relpath(audit, LEAN), cwd=LEAN)
     axioms = {}
     cur = None
     text = r.stdout
@@ -196,7 +196,7 @@ def main():
     sys.path.insert(1, "/repo")
     mod = importlib.import_module("harness.props." + pid.lower())
 
-    ok, audit = build_and_audit(mod.THEOREMS)
+    ok, audit = build_and_audit(mod.THEOREMS, pid)
     if ok and tier == "thorough":
         # independent re-check of the compiled library by leanchecker, once per state of the Lean sources
         lc = os.path.join(LEAN, ".lake", "leanchecker_%s.ok" % _sources_digest())
@@ -325,7 +325,7 @@ def main():
         "property_id": pid, "tier": tier, "seed": seed, "level": getattr(mod, "LEVEL", "proof"),
         "coverage": {
             "obligations": max(audit["obligations"], 0), "discharged": audit["discharged"],
-            "checker_cmd": "cd lean && lake build Pfl && lake env lean Audit.lean  (#print axioms of every registered theorem)" + ("; lake env leanchecker Pfl" if audit.get("leanchecker") else ""),
+            "checker_cmd": "cd lean && lake build Pfl && lake env lean .lake/Audit_<id>.lean  (#print axioms of every registered theorem)" + ("; lake env leanchecker Pfl" if audit.get("leanchecker") else ""),
             "trusted_base": ["Lean 4.33.0 kernel", "axioms: propext, Classical.choice, Quot.sound only",
                              "Spec definitions in lean/Pfl/Spec", "correspondence harness (harness/*.py, lean/PflDrv)",
                              "CPython sets/dicts/str modelled as lists/strings"],
